@@ -42,7 +42,11 @@ func (s *scenario) String() string {
 	for _, o := range s.prefill {
 		pf = append(pf, o.Label)
 	}
-	return fmt.Sprintf("%s %s init[%s] || %s", s.desc.Name, s.desc.Ctors[s.ctor].Name, strings.Join(pf, ";"), strings.Join(ts, " || "))
+	init := strings.Join(pf, ";")
+	if len(pf) > 4 {
+		init = fmt.Sprintf("%s;...(%d insertions of distinct filler keys: one below the growth threshold)", pf[0], len(pf))
+	}
+	return fmt.Sprintf("%s %s init[%s] || %s", s.desc.Name, s.desc.Ctors[s.ctor].Name, init, strings.Join(ts, " || "))
 }
 
 func (s *scenario) build() interface{} {
@@ -266,6 +270,10 @@ func opsFor(d *coll.Desc, nk, nv int, only map[string]bool) []coll.Op {
 	return ops
 }
 
+// growFill entries bring a default-sized table (101 x 0.75) to the point where one more new key
+// makes it grow.
+const growFill = 75
+
 func prefills(d *coll.Desc) [][]coll.Op {
 	var k0, k1 reflect.Value
 	if d.KeyT != nil {
@@ -275,9 +283,19 @@ func prefills(d *coll.Desc) [][]coll.Op {
 	switch d.Family {
 	case "linkedmap", "map":
 		v := coll.Vals(d.ValT, 1)[0]
-		return [][]coll.Op{nil, {coll.MkOp("Put", k0, v)}, {coll.MkOp("Put", k0, v), coll.MkOp("Put", k1, v)}}
+		// grow: the default table (101 buckets, load factor 0.75) filled to its threshold, so that the
+		// next insertion of a new key rebuilds the table while the other thread works on it
+		var grow []coll.Op
+		for _, k := range coll.FillerKeys(d, growFill) {
+			grow = append(grow, coll.MkOp("Put", k, v))
+		}
+		return [][]coll.Op{nil, {coll.MkOp("Put", k0, v)}, {coll.MkOp("Put", k0, v), coll.MkOp("Put", k1, v)}, grow}
 	case "linkedset", "set":
-		return [][]coll.Op{nil, {coll.MkOp("Put", k0)}, {coll.MkOp("Put", k0), coll.MkOp("Put", k1)}}
+		var grow []coll.Op
+		for _, k := range coll.FillerKeys(d, growFill) {
+			grow = append(grow, coll.MkOp("Put", k))
+		}
+		return [][]coll.Op{nil, {coll.MkOp("Put", k0)}, {coll.MkOp("Put", k0), coll.MkOp("Put", k1)}, grow}
 	case "list":
 		return [][]coll.Op{nil, {coll.MkOp("Add", reflect.ValueOf("e0"))}, {coll.MkOp("Add", reflect.ValueOf("e0")), coll.MkOp("Add", reflect.ValueOf("e1"))}}
 	case "queue":
@@ -390,6 +408,9 @@ func buildTasks(thorough bool) []task {
 						tasks = append(tasks, task{kind: "lin", sc: &scenario{desc: d, ctor: ci, prefill: pf, threads: [][]coll.Op{{a}, {b}}}, cfg: dfs.Config{Preemptions: -1, Faults: 0, StepCap: 5000}})
 					}
 				}
+				if len(pf) > 2 {
+					continue // the filled table takes part in the pair scenarios only
+				}
 				// (b) 2 threads x 2 mutators
 				pb := 2
 				if thorough {
@@ -471,7 +492,7 @@ func norm(method, res string) string {
 
 func Run(c *evid.Ctx) {
 	coll.KeyGen = coll.KeysNZ
-	c.Assume("code between two synchronisation operations runs atomically (sound for data-race-free code; the race clause is handled by the separate free-running -race pass)")
+	c.Assume("linearizability pass: code between two synchronisation operations runs atomically (sound for data-race-free code); the race clause is decided by the race pass: every schedule of every pair of point operations (preemption bound 2) in a -race build whose detector sees only the happens-before edges of the library's own synchronisation")
 	c.Assume("the specification of a scenario is the real type run sequentially in every order of whole operations; sequential correctness itself is C09/C11/C12")
 	tasks := buildTasks(c.Thorough())
 	if w := shard.Worker(); w != nil {
@@ -517,6 +538,8 @@ func Run(c *evid.Ctx) {
 	}
 	c.Cov["tasks"] = len(tasks)
 	shard.Spawn(c, 16, true)
+	// the race clause: the same kind of schedule enumeration in the -race build (race.go)
+	shard.SpawnRace(c, 16)
 	c.Cov["traces_validated_against_impl"] = c.Counter("states")
 	c.Cov["rule"] = "states = complete executions (schedules) of a scenario on the real type; transitions = scheduler steps; every execution's result vector and final canonical heap must equal those of a real-time-consistent sequential order of the same operations on the real type"
 }
